@@ -109,6 +109,15 @@ SafeOK(r) ==
     /\ r.mem.allocMiB <= 64 + 2 * (r.conc + 3) * r.maxblockMiB + 3 * r.deliveredMiB
     /\ (r.small /\ r.outcome = "clean" => ParseLenient(r.bytes).status \in {"ok", "empty"})
 
+\* C15 (Reader side): the source is a valid frame served with some fragmentation pattern and possibly
+\* failing at its k-th Read call (r.hit: that call was really made)
+FaultOK(r) ==
+    /\ r.outcome \in {"error", "clean"}
+    /\ r.prefixOfContent
+    /\ (r.hit => r.outcome = "error" /\ r.err = "injected")
+    /\ (~r.hit => r.outcome = "clean" /\ r.deliveredLen = r.contentLen)
+    /\ (r.small /\ ~r.hit => ParseLenient(r.bytes).content = r.delivered)
+
 RefOK(r) ==
     LET p == Parse(r.bytes, r.strict)
     IN  /\ p.status = r.status /\ p.content = r.content /\ p.consumed = r.consumed
@@ -123,6 +132,7 @@ RecordOK(r) ==
       [] r.ev = "read" -> (CASE Prop = "C05" -> SoundOK(r)
                              [] Prop = "C06" -> TruncOK(r)
                              [] Prop = "C07" -> SafeOK(r)
+                             [] Prop = "C15" -> FaultOK(r)
                              [] OTHER -> TRUE)
 
 TraceInit == l = 1
